@@ -66,8 +66,15 @@ def run_family(fam, tier):
         if f.startswith("%s-%s-" % (fam, tier)):
             os.remove(os.path.join(d, f))
     t0 = time.time()
+    verif.ENV_DROPPED = 0
     res = FAMILIES[fam](tier, os.path.join(d, key))
     res["wall"] = time.time() - t0
+    if verif.ENV_DROPPED:
+        # inputs during which the embedded etcd itself failed (request timed out under load) were not judged
+        total = sum(res.get("traces", {}).values()) or 1
+        if verif.ENV_DROPPED > max(5, total // 10):
+            raise Broken("family %s: the embedded etcd failed during %d inputs (overloaded machine?): too many could not be judged" % (fam, verif.ENV_DROPPED))
+        res["notes"] = res.get("notes", "") + "; %d inputs dropped because the embedded etcd itself failed while they ran" % verif.ENV_DROPPED
     json.dump(res, open(meta, "w"))
     return res
 
